@@ -17,7 +17,7 @@ func flattenConcat(v ssa.Value) []ssa.Value {
 // c04R5: "the client address appended to X-Forwarded-For".
 func c04R5(h H) {
 	r := h.r
-	r.Rule("R5", "the outgoing request as a decision table (E10): createUpstreamRequest, evaluated with http.Request.WithContext modelled as the shallow copy it is, for every combination of Connection header {absent, close, naming X-Foo, naming X-Foo and keep-alive}, 0-2 prior X-Forwarded-For values, parsable/unparsable client address and empty/non-empty body: the client's own header map is never modified; no header of the hop-by-hop table and none named in Connection is forwarded while end-to-end headers are; X-Forwarded-For is the prior values joined with \", \" followed by the client address (unchanged when the address cannot be split); the body is nil exactly for an empty body", 3)
+	r.Rule("R5", "the outgoing request as a decision table (E10): createUpstreamRequest, evaluated with http.Request.WithContext modelled as the shallow copy it is, for every combination of Connection header {absent, close, naming X-Foo, naming X-Foo and keep-alive, two lines of which the second names X-Foo}, 0-2 prior X-Forwarded-For values, parsable/unparsable client address and empty/non-empty body: the client's own header map is never modified; no header of the hop-by-hop table and none named in Connection is forwarded while end-to-end headers are; X-Forwarded-For is the prior values joined with \", \" followed by the client address (unchanged when the address cannot be split); the body is nil exactly for an empty body", 3)
 	cow, hop, xff, other, n := c04Req(h, "R5")
 	fn := h.p.Func(pxPkg, "createUpstreamRequest")
 	pos := token.NoPos
